@@ -41,6 +41,12 @@ import PdfModel.Core.Out
   the code before the fixes (D41: no `pending`;             Old.cloneRef (kept for the regression theorems)
     D46: `rcrefs.get(..).unwrap()`)
 
+  The payload is abstract here; the correspondence makes it concrete: every generated object's payload number
+  determines its plaintext (stream data, string entry), the harness attaches the digest of that plaintext to
+  the model's answer and the digest of what the copy really holds (read back from the new document) to the
+  implementation's, so a copy that carries other bytes (ciphertext, bytes from a wrong offset, a stale
+  revision) breaks the tie although the graph shape is right.
+
   Not modelled: `clone_shared` (pointer-keyed sharing of *direct* values: never visible in the written
   file), the extra `create` inside `Pattern::deep_clone`, the typed re-serialisation of the payload
   (`to_primitive`), stream bytes (`stream_data`) — these are covered by the oracle only.
